@@ -54,6 +54,13 @@ def make_cases(rng, tier):
     add('tpld', dh.base_cfg('tpld', S=2, W=3, classes=(0, 1, 2), tpl=[[1, 2], [3, 1], [0, 2]], ainv=[[2, 1], [1, 3]]), tmax=9, combos_q=allp, combos_t=allp)
     add('ttest', dh.base_cfg('ttest', S=3, W=1), combos_q=allp, combos_t=allp)
     add('ttest-neg', dh.base_cfg('ttest', S=2, W=1), tmin=-9, tmax=9, combos_q=neg[:2], combos_t=neg)
+    # samples near the top of narrow integer types: their squares / products do not fit the type they arrive in
+    hi8 = [('float64', 'u8'), ('float32', 'u8')]
+    add('cpa-u8-high', dh.base_cfg('cpa', S=2, W=1), subs=('std',), tmin=200, tmax=255, combos_q=hi8[:1], combos_t=hi8, nrows=n - 1, dvals=[3, 200, 255])
+    add('part-i8-high', dh.base_cfg('part', S=1, W=1, classes=(0, 1, 2)), subs=('snr',), tmin=-128, tmax=127, combos_q=[('float64', 'i8')], combos_t=[('float64', 'i8'), ('float32', 'i8')], nrows=n - 1)
+    add('tplb-u8-high', dh.base_cfg('tplb', S=2, W=1, classes=(0, 1)), tmin=180, tmax=255, combos_q=hi8[1:], combos_t=hi8, nrows=n - 1)
+    add('ttest-u8-high', dh.base_cfg('ttest', S=2, W=1), tmin=100, tmax=255, combos_q=hi8[:1], combos_t=hi8, nrows=n - 1)
+    add('dpa-u8-high', dh.base_cfg('dpa', S=1, W=2), tmin=16, tmax=255, combos_q=hi8[1:], combos_t=hi8, nrows=n - 1)
     return cs
 
 
